@@ -296,6 +296,13 @@ pub fn run(rep: &mut Report) {
         el.dedup();
         sweep(rep, &format!("c17.views[{}]", scale_name(ts)), el.len() as u64, |i, out| j_views(ts, el[i as usize], &leap, out));
     }
+    // order independence: the views of six instants (two of them a leap-second interval apart) in four scales, in every order
+    {
+        let oi: [i128; 6] = [3_697_315_237 * NS_S, 3_692_217_610 * NS_S, 0, -86_400 * NS_S * 7305 - 5, 86_400 * NS_S * 7305 + 5, 2_000_000_000 * NS_S];
+        let os = [TimeScale::TAI, TimeScale::UTC, TimeScale::GPST, TimeScale::TT];
+        let lp = &leap;
+        crate::engine::order_pairs(rep, "c17.order", 24, |i, out| j_views(os[(i / 6) as usize], oi[(i % 6) as usize], lp, out));
+    }
     let fl = lattice::fl(!q);
     for k in 0..12 {
         let xs = ctor_inputs(k, &fl);
